@@ -701,12 +701,77 @@ func checkC31UpdateArgs(p *Prog, r *Result, M *FuncNode) {
 				break
 			}
 		}
-		if why == "" {
-			if sel, ok := unparen(c.Args[5]).(*ast.SelectorExpr); !ok || sel.Sel.Name != "Remap" {
-				why = "the remap flag passed is `" + exprStr(c.Args[5]) + "`, not the parameters' Remap: a remapped (unbound) workload is translated as if it were bound"
+		// the remap argument: <params>.Remap, possibly or-ed with "the parsed core map was empty"
+		hasRemap, hasUnbound := false, false
+		for _, d := range splitOp(c.Args[5], token.LOR) {
+			if sel, ok := unparen(d).(*ast.SelectorExpr); ok && sel.Sel.Name == "Remap" {
+				hasRemap = true
+				continue
+			}
+			if id, ok := unparen(d).(*ast.Ident); ok {
+				// a local defined as len(<core map local>) == 0, before the core map local is re-assigned
+				o := U.objOf(id)
+				U.inspectBody(func(n ast.Node) bool {
+					as, ok := n.(*ast.AssignStmt)
+					if !ok || len(as.Lhs) != 1 || len(as.Rhs) != 1 || U.objOf(as.Lhs[0]) != o {
+						return true
+					}
+					be, ok := unparen(as.Rhs[0]).(*ast.BinaryExpr)
+					if !ok || be.Op != token.EQL {
+						return true
+					}
+					lc, ok := unparen(be.X).(*ast.CallExpr)
+					if !ok || exprStr(lc.Fun) != "len" || len(lc.Args) != 1 || U.objOf(lc.Args[0]) != U.objOf(c.Args[2]) {
+						return true
+					}
+					if k, isC := U.constInt(be.Y); !isC || k != 0 {
+						return true
+					}
+					// before any re-assignment of the core map local
+					early := true
+					U.inspectBody(func(m ast.Node) bool {
+						if a2, ok := m.(*ast.AssignStmt); ok && a2.Tok == token.ASSIGN {
+							for _, l := range a2.Lhs {
+								if U.objOf(l) == U.objOf(c.Args[2]) && a2.Pos() < as.Pos() {
+									early = false
+								}
+							}
+						}
+						return true
+					})
+					if early {
+						hasUnbound = true
+					}
+					return true
+				})
+				continue
+			}
+			if why == "" {
+				why = "the remap flag passed contains `" + exprStr(d) + "`, which is neither the parameters' Remap nor 'the parsed core map was empty'"
 			}
 		}
-		r.check2(why, "UA", key, p.pos(c), "makeResourceSetting(quota, memory, cpuMap, numaNode, …, opts.Remap) with the normalised locals")
+		if why == "" && !hasRemap {
+			why = "the remap flag passed is `" + exprStr(c.Args[5]) + "`, not the parameters' Remap: a remapped (unbound) workload is translated as if it were bound"
+		}
+		r.check2(why, "UA", key, p.pos(c), "makeResourceSetting(quota, memory, cpuMap, numaNode, …, opts.Remap [|| unbound]) with the normalised locals")
+		// UQ: the update path fills an empty core map with all cores (docker cannot take an empty cpuset); the workload is
+		// still unbound, so the translation must not take the bound branch (which lifts the quota)
+		fills := false
+		U.inspectBody(func(n ast.Node) bool {
+			if as, ok := n.(*ast.AssignStmt); ok && as.Tok == token.ASSIGN {
+				for _, l := range as.Lhs {
+					if U.objOf(l) == U.objOf(c.Args[2]) {
+						fills = true
+					}
+				}
+			}
+			return true
+		})
+		if fills {
+			r.min("UQ", 1)
+			r.check(hasUnbound, "UQ", fmt.Sprintf("%s / translation #%d keeps the quota of a workload whose core map was empty", U.Name, i+1), p.pos(c), "remap || unbound, with unbound := len(cpuMap) == 0 taken before the all-cores fill-in",
+				"the update path replaces an empty core map by all cores and then translates with remap = `"+exprStr(c.Args[5])+"`: makeResourceSetting sees a non-empty core map without remap, takes the bound branch and sets the quota to -1 — re-allocating an unbound workload lifts its CPU limit")
+		}
 	}
 	// memory normalisation exists: `if memory == 0 { memory = maxMemory }`
 	_ = calls
